@@ -85,6 +85,17 @@ CHECKS["C01"] = dict(
          "of whole programs are outside. The parser stage (token -> node) is only covered by the replay programs.",
     design="§4 C01")
 
+CHECKS["C11"] = dict(
+    engine="E2 mirsym (MIR -> z3)", technique="symbolic execution of rustc MIR, 2-safety (non-interference) by substitution of the flag, z3, native replay with both settings",
+    text="Bounded symbolic model checking of non-interference: the readers of State::annotate are enumerated from the "
+         "MIR on every run; convert_def (all 225 paths, State setters inlined) is executed with every input free and "
+         "the observable behaviour (Result discriminant, non-annotation fields of the Core node, sequence and arguments "
+         "of all recursive conversions) under annotate=true is compared with annotate=false by z3.",
+    note="Inductive hypothesis: recursive conversions are themselves inert (their State argument is compared with the "
+         "annotate field erased); Imports is a write-only accumulator; ToPy callees only return annotations. A new reader "
+         "of the flag without an obligation makes the check inconclusive.",
+    design="§4 C11")
+
 NOT_APPLICABLE = {
     "C02": "needs the generator executed on symbolic programs (core::fmt/to_py recursion does not finish in CBMC even on concrete 3-node trees) and membership in Python's grammar as the assertion; no encodable kernel (DESIGN §6)",
     "C04": "oracle is Python's dynamic semantics over whole programs and the subject is the whole checker (HashSet/recursion out of reach of Kani; not loop-free for the MIR executor) (DESIGN §6)",
